@@ -16,7 +16,7 @@
 EXTENDS LZ, TLC, IOUtils
 
 Tier == IF "VERIF_TIER" \in DOMAIN IOEnv THEN IOEnv.VERIF_TIER ELSE "quick"
-MaxOut == IF Tier = "quick" THEN 7 ELSE 10
+MaxOut == IF Tier = "quick" THEN 7 ELSE 9
 Fmts == {"lz10s", "lz11s"}
 FOf(f) == IF f = "lz10s" THEN LZ10s ELSE LZ11s
 Alphabet == {97, 98}
